@@ -131,6 +131,6 @@ def spec_cases(draw):
 def parts(tier):
     return [
         Enum("example-corpus", corpus_cases),
-        Hyp("generated-lasfiles", desc_cases, quick=1500, thorough=50000),
-        Hyp("generated-texts", spec_cases, quick=800, thorough=20000),
+        Hyp("generated-lasfiles", desc_cases, quick=3000, thorough=50000),
+        Hyp("generated-texts", spec_cases, quick=1500, thorough=20000),
     ]
